@@ -1,6 +1,6 @@
 # replay of a solver counterexample against the real library (exit 1 = reproduces)
 import sys, warnings
-sys.path.insert(0, '/tmp/sr/C08-m1')
+sys.path.insert(0, '/tmp/sr/C08-m6')
 warnings.simplefilter('ignore')
 import numpy as np
 from svgpathtools import *
@@ -14,7 +14,7 @@ def NOT_REPRODUCED(msg=''):
 
 
 import math
-rot, rx, ry, cx, cy, theta, delta = (-36.86989764584402, 2.5, 2.5, -1e-11, -1e-11, 159.0, 355.0)
+rot, rx, ry, cx, cy, theta, delta = (-36.86989764584402, 2.5, 2.5, -5e-12, -5e-12, -180.0, 355.0)
 phi = math.radians(rot)
 def pt(a):
     a = math.radians(a)
